@@ -8,7 +8,8 @@
 (* enclosed in parentheses.  A component is a sum of at most three signed  *)
 (* terms of distinct kinds: x, y, and a constant d or d/e with single      *)
 (* digits.  The sign of the first term may be left out when positive.      *)
-(* Spaces may surround the signs.                                          *)
+(* Spaces may surround the signs, the slash of a constant, the comma and    *)
+(* the parentheses.                                                        *)
 (*                                                                         *)
 (* Denote gives the meaning of a component: <<coefficient of x,            *)
 (* coefficient of y, constant as numerator and denominator>>.              *)
@@ -58,10 +59,14 @@ Denote(comp) == DenoteFrom(comp, 1, <<0, 0, 0, 1>>)
 
 \* ---- concrete syntax, as a sequence of one-character strings
 DigitChar(d) == <<"0", "1", "2", "3", "4", "5", "6", "7", "8", "9">>[d + 1]
-TermBody(t) == CASE t[1] = "x" -> <<"x">>
-                 [] t[1] = "y" -> <<"y">>
-                 [] OTHER -> IF t[4] = 0 THEN <<DigitChar(t[3])>>
-                             ELSE <<DigitChar(t[3]), "/", DigitChar(t[4])>>
+\* spacing 3, 4, 5: blanks around the slash of a rational constant ("1 / 2", "1/ 2", "1 /2");
+\* spacing 6: blanks inside the parentheses and before the comma
+TermBody(t, spacing) ==
+  CASE t[1] = "x" -> <<"x">>
+    [] t[1] = "y" -> <<"y">>
+    [] OTHER -> IF t[4] = 0 THEN <<DigitChar(t[3])>>
+                ELSE <<DigitChar(t[3])>> \o (IF spacing \in {3, 5} THEN <<" ">> ELSE <<>>) \o <<"/">>
+                     \o (IF spacing \in {3, 4} THEN <<" ">> ELSE <<>>) \o <<DigitChar(t[4])>>
 SignChars(t, first, leadplus, spacing) ==
   LET sg == IF t[2] THEN <<"-">> ELSE IF first /\ ~leadplus THEN <<>> ELSE <<"+">>
   IN IF sg = <<>> THEN <<>>
@@ -71,12 +76,13 @@ SignChars(t, first, leadplus, spacing) ==
 RECURSIVE CompChars(_, _, _, _)
 CompChars(comp, i, leadplus, spacing) ==
   IF i > Len(comp) THEN <<>>
-  ELSE SignChars(comp[i], i = 1, leadplus, spacing) \o TermBody(comp[i])
+  ELSE SignChars(comp[i], i = 1, leadplus, spacing) \o TermBody(comp[i], spacing)
        \o CompChars(comp, i + 1, leadplus, spacing)
 StringChars(c1, c2, v) ==
-  LET body == CompChars(c1, 1, v[1], v[2]) \o <<",">> \o (IF v[2] = 0 THEN <<>> ELSE <<" ">>)
-              \o CompChars(c2, 1, v[1], v[2])
-  IN IF v[3] THEN <<"(">> \o body \o <<")">> ELSE body
+  LET body == CompChars(c1, 1, v[1], v[2]) \o (IF v[2] = 6 THEN <<" ">> ELSE <<>>) \o <<",">>
+              \o (IF v[2] = 0 THEN <<>> ELSE <<" ">>) \o CompChars(c2, 1, v[1], v[2])
+  IN IF v[3] THEN (IF v[2] = 6 THEN <<"(", " ">> \o body \o <<" ", ")">> ELSE <<"(">> \o body \o <<")">>)
+     ELSE body
 
 -----------------------------------------------------------------------------
 (* The automaton.  reg = [sign, num, den, op]; row = <<x, y>> coefficients. *)
